@@ -352,6 +352,33 @@ def _check(ctx, lib, W, c, obs=None):
         d.vf_lq_marshal(LQK[kind], buf2, new, 1 if comp else 0)
     expect(ctypes.string_at(buf2, mlen + pad)[mlen:] == b"\xCD" * pad, sig_ + "/remarshal-overrun", "marshalling the unmarshalled object wrote beyond get_marshalled_length bytes")
     expect(ctypes.string_at(buf2, mlen) == wire, sig_ + "/remarshal", "unmarshal(marshal(x)) re-marshals to different bytes")
+    if kind == "params" and comp and obs is None:
+        # related loads. (1) The receiving object already holds exactly these elements but another pairing value (as after an
+        # unvalidated load of an uncompressed buffer whose pairing field was wrong): the compressed load recomputes it all the same.
+        wrong = W.pairing(fields["g3"], fields["g"])
+        d.vf_wk_set(0, new, 4, 0, wrong, 0)
+        expect(unm(new, True), sig_ + "/after-related-call/rejected-valid", "second load of the same bytes into the same object failed")
+        expect(W.params_view(new)["pairing"] == fields["pairing"], sig_ + "/after-related-call/stale-pairing",
+               "compressed load into an object that already held these elements kept the object's old pairing value")
+        # (2) Right afterwards, parameters that share their first element with these but have another g1: the pairing is that of the
+        # new pair.
+        g1b = fields["g"]
+        pairing_b = W.pairing(fields["g2"], g1b)
+        d.vf_wk_set(0, obj, 1, 0, g1b, 0)
+        d.vf_wk_set(0, obj, 4, 0, pairing_b, 0)
+        bufb = W.buf(mlen + 32)
+        d.vf_wk_marshal(WKK[kind], bufb, obj, 1)
+        d.vf_wk_set(0, obj, 1, 0, fields["g1"], 0)
+        d.vf_wk_set(0, obj, 4, 0, fields["pairing"], 0)
+        ctypes.memmove(dbuf, bufb, mlen)
+        newb = W.params_new(nslots)
+        d.vf_wk_length_from(WKK[kind], newb, dbuf, mlen, 1, 0)
+        okb = unm(newb, True)
+        ctypes.memmove(dbuf, data, len(data))
+        expect(okb, sig_ + "/after-related-call/rejected-valid", "parameters sharing g with the previous ones were rejected")
+        expect(W.params_view(newb)["pairing"] == pairing_b, sig_ + "/after-related-call/pairing-of-previous-load",
+               "parameters sharing their first element with the previously loaded ones: the recomputed pairing is not e(g2, g1) of the new pair")
+        ctx.event("related-parameter-loads")
     # unchecked unmarshal of valid bytes gives the same object
     if kind in ("params", "sk"):
         new2 = W.params_new(nslots) if kind == "params" else W.sk_new(nslots)
